@@ -49,8 +49,11 @@ def programs(spec, mode):
 
 class Budget(object):
     def __init__(self, seconds):
+        import os
         self.t0 = time.time()
-        self.seconds = seconds
+        # soft per-shard time budget (caps the amount of work, never a verdict); the thorough tier
+        # scales the nominal budgets so that the whole suite stays within a few hours
+        self.seconds = seconds * float(os.environ.get("VERIF_BUDGET_SCALE") or 1.0)
 
     def over(self):
         return time.time() - self.t0 > self.seconds
